@@ -64,6 +64,47 @@ def copies(root):
         yield f'pickle(protocol={proto})', pickle.loads(pickle.dumps(root, protocol=proto))
 
 
+def cycle_cases():
+    return [dict(cycle=True, kind=k) for k in ('self_dict', 'self_list', 'mutual', 'child_to_root')]
+
+
+def judge_cycle(case):
+    """user metadata may hold references to nodes of the tree itself: the copy must be one tree again (the reference leads to the COPY of that node,
+    not to a private duplicate and not to the original)"""
+    text = '{a: {k: [1, 2], m: {z: 0}}, b: [3, {y: 4}]}'
+    k, root = oracles.build([text])
+    if k != 'ok':
+        return dict(case=case, reason='setup failed')
+    a, b = root['a'], root['b']
+    if case['kind'] == 'self_dict':
+        a.ayns.metadata['me'] = a
+        probes = [(('a',), 'me', ('a',))]
+    elif case['kind'] == 'self_list':
+        b.ayns.metadata['me'] = b
+        probes = [(('b',), 'me', ('b',))]
+    elif case['kind'] == 'mutual':
+        a.ayns.metadata['other'] = b
+        b.ayns.metadata['other'] = a
+        probes = [(('a',), 'other', ('b',)), (('b',), 'other', ('a',))]
+    else:
+        a['m'].ayns.metadata['top'] = root
+        probes = [(('a', 'm'), 'top', ())]
+    def at(r, p):
+        for c in p:
+            r = r[c]
+        return r
+    for how, cp in copies(root):
+        for holder, key, target in probes:
+            try:
+                ref = at(cp, holder).ayns.metadata[key]
+            except Exception as e:
+                return dict(case=case, how=how, reason='the metadata entry is missing in the copy', error=type(e).__name__)
+            if ref is not at(cp, target):
+                return dict(case=case, how=how, reason='a node referenced from user metadata was duplicated (or is the original) instead of being the copy of that node',
+                            is_original=ref is at(root, target))
+    return None
+
+
 def judge(case):
     from awesomeyaml.config import Config
     from awesomeyaml.nodes.node import ConfigNode
@@ -215,13 +256,18 @@ def run(rep, tier, rng):
         inputs.append(dict(texts=["{base: 1, other: 2, vals: [&r !xref base, 1, *r, !xref other, *r], m: {a: &q !force 5, b: *q}}"], merged=merged))
         inputs.append(dict(texts=["{name: exp, out: !path:cwd [runs, !xref name], p2: !path:file [a, !weak b], p3: !path:abs(/tmp) [x], p4: !path:parent(1) [c]}"], merged=merged, extra="{name: other}"))
         inputs.append(dict(texts=["{l: [&c !call:vmod.u1 {x: 1}, *c, 2]}"], merged=merged))
+    base.run_oracle(rep, 'C19', 'references to nodes of the tree held in user metadata (cycles)', cycle_cases(), judge_cycle)
     base.run_oracle(rep, 'C19', 'copy equals original, is distinct, merges/evaluates alike, isolation', inputs, judge)
 
 
 def replay(data):
     r = data['replay']
     if 'input' in r:
-        f = judge(r['input'])
+        x = r['input']
+        if isinstance(x, dict) and (x.get('cycle') or (isinstance(x.get('case'), dict) and x['case'].get('cycle'))):
+            f = judge_cycle(x.get('case', x))
+        else:
+            f = judge(x)
         print('replay:', 'property FAILS' if f else 'property holds', f or '')
         return 1 if f else 0
     print('no input to replay; broken obligations:', r)
